@@ -237,11 +237,14 @@ def reused_generator_check():
         for name, (mod, members) in decls.items():
             if name in ("PacketAction", "E1", "E2", "E3"):
                 continue  # prelude enums are not shifted
-            cls = getattr(loader.gen(mod), name)
-            for mname, ordinal in members.items():
-                got = cls(ordinal)
-                if got.name != mname or int(got) != ordinal or getattr(cls, mname) is not got:
-                    return f"generated by a re-used generator object: {name}({ordinal}) is {got.name}, the tree declares {mname} = {ordinal}"
+            try:
+                cls = getattr(loader.gen(mod), name)
+                for mname, ordinal in members.items():
+                    got = cls(ordinal)
+                    if got.name != mname or int(got) != ordinal or getattr(cls, mname) is not got:
+                        return f"generated by a re-used generator object: {name}({ordinal}) is {got.name}, the tree declares {mname} = {ordinal}"
+            except Exception as e:  # noqa: BLE001 - what the generated / hand-written code raises is an observation
+                return f"generated by a re-used generator object: using {name} raised {type(e).__name__}: {e}"
         return None
     finally:
         shutil.rmtree(work, ignore_errors=True)
